@@ -30,6 +30,7 @@ def pairs(impl, subset):
                 ('GetDspMemory', '@tf_getdspmemory', '@ts_getdspmemory', [impl], []), ('GetRegisterState', '@tf_getregs', '@ti_regs', [impl], [])]
         for a in (0x80C0, 0x80CC, 0x8020, 0x8200, 0x811E):
             out += [('DataRead(%#06x, MMIO)' % a, '@tf_dread', '@ti_dread', [impl, a, False], []), ('DataWrite(%#06x, MMIO)' % a, '@tf_dwrite', '@ti_dwrite', [impl, a, v, False], [])]
+            out += [('DataRead(%#06x, bypassing the MMIO window)' % a, '@tf_dread', '@ti_dread', [impl, a, True], []), ('DataWrite(%#06x, bypassing the MMIO window)' % a, '@tf_dwrite', '@ti_dwrite', [impl, a, v, True], [])]
         for a in (0x0C0, 0x8C4, 0x10CC, 0x020, 0x200):
             out += [('MMIORead(%#06x)' % a, '@tf_mmioread', '@ti_host_mmio_read', [impl, a], []), ('MMIOWrite(%#06x)' % a, '@tf_mmiowrite', '@ti_host_mmio_write', [impl, a, v], [])]
     elif subset == 'callbacks':
